@@ -12,7 +12,7 @@ use crate::stats::CaseOutcome;
 use crate::tree;
 use std::collections::{BTreeMap, BTreeSet};
 
-pub const FAULTS: [&str; 17] = [
+pub const FAULTS: [&str; 18] = [
     "F1-tag-while-listening",
     "F1-prefixless-multiline",
     "F1-temp-target-txtpp",
@@ -30,6 +30,7 @@ pub const FAULTS: [&str; 17] = [
     "F7b-temp-target-is-directory",
     "F7c-temp-target-unwritable",
     "F9-tampered-output",
+    "F8-fsize-limit",
 ];
 pub const POSITIONS: [&str; 5] = ["leaf", "middle", "root", "sibling", "outside"];
 
@@ -38,6 +39,8 @@ pub fn modes_for(fault: &str) -> Vec<ModeS> {
     match fault {
         "F5a-output-is-directory" => vec![ModeS::Build, ModeS::Needed, ModeS::Verify, ModeS::Clean],
         "F6-output-dev-full" => vec![ModeS::Build],
+        // verify writes nothing once the temp files are in place: build modes only
+        "F8-fsize-limit" => vec![ModeS::Build, ModeS::Needed],
         "F9-tampered-output" => vec![ModeS::Verify],
         _ => vec![ModeS::Build, ModeS::Needed, ModeS::Verify],
     }
@@ -223,6 +226,7 @@ fn fault_ops(fault: &str, p: &Project, a: &Analysis, i: usize, rng: &mut Rng) ->
             },
             insert_lines(p, a, i, &[format!("-TXTPP#temp tlink{i}.tmp"), "-body".into()], rng, None),
         ],
+        "F8-fsize-limit" => vec![],
         "F9-tampered-output" => {
             let kinds = [
                 TamperKind::Flip,
@@ -323,6 +327,13 @@ pub fn gen(prop: &str, seed: u64, index: u64, _tier: Tier) -> Case {
     params.insert("position".to_string(), pos.to_string());
     params.insert("faulty".to_string(), a.sources[fi].path.clone());
     params.insert("planted".to_string(), format!("{}", planted.is_some()));
+    if fault == "F8-fsize-limit" {
+        params.insert("fsize_pick".to_string(), format!("{}", frng.below(1000)));
+        params.insert(
+            "fsize_delta".to_string(),
+            (*frng.pick(&["-1", "-1", "0", "+1", "=1", "=4096", "=8192", "half"])).to_string(),
+        );
+    }
     if let Some(f) = planted {
         ops.extend(f);
     }
@@ -388,8 +399,94 @@ pub fn run_cli(root: &std::path::Path, cfg: &RunCfg) -> Option<i32> {
     Some(st.code().unwrap_or(-1))
 }
 
+/// F8: turn the relative description of the size limit into bytes, from the sizes a reference
+/// build of the same sources produces. Returns (case with the limit filled in, expected failure).
+fn resolve_fsize(case: &Case, ctx: &mut Ctx) -> Option<(Case, bool, String)> {
+    let (cfg, _) = match case.ops.last() {
+        Some(Op::Run { cfg, sched, .. }) => (cfg.clone(), sched.clone()),
+        _ => return None,
+    };
+    let a = analyze(&case.project);
+    let named = match gen::r_inputs(&case.project, &a, &cfg.base, &cfg.inputs, cfg.recursive) {
+        Resolved::Sources(s) => s,
+        _ => return None,
+    };
+    let req = a.closure(&named);
+    tree::plant(&ctx.env.ref_root, &case.project);
+    let r = crate::env::rseq(
+        ctx.env,
+        &ctx.env.ref_root,
+        &a,
+        &req,
+        &cfg.base,
+        txtpp::Mode::Build,
+        cfg.trailing_newline,
+        &cfg.shell,
+    );
+    if !r.all_ok(&req) {
+        return None;
+    }
+    // sizes of the products of the closure
+    let mut sizes: Vec<(String, String, usize)> = vec![];
+    for i in &req {
+        for g in a.sources[*i].generated() {
+            if let Some(b) = r.files.get(&g) {
+                sizes.push((a.sources[*i].path.clone(), g, b.len()));
+            }
+        }
+    }
+    let max = sizes.iter().map(|x| x.2).max().unwrap_or(0);
+    let limit: u64 = if let Some(l) = cfg.fsize_limit {
+        l
+    } else {
+        let cands: Vec<&(String, String, usize)> = sizes.iter().filter(|x| x.2 > 0).collect();
+        if cands.is_empty() {
+            return None;
+        }
+        let pick: usize = case.params.get("fsize_pick").and_then(|s| s.parse().ok()).unwrap_or(0);
+        let len = cands[pick % cands.len()].2 as u64;
+        match case.params.get("fsize_delta").map(|s| s.as_str()).unwrap_or("0") {
+            "-1" => len - 1,
+            "0" => len,
+            "+1" => len + 1,
+            "=1" => 1,
+            "=4096" => 4096,
+            "=8192" => 8192,
+            _ => len / 2,
+        }
+    };
+    let mut c = case.clone();
+    if let Some(Op::Run { cfg, .. }) = c.ops.last_mut() {
+        cfg.fsize_limit = Some(limit);
+    }
+    let victim = sizes
+        .iter()
+        .find(|x| x.2 as u64 > limit)
+        .map(|x| x.0.clone())
+        .unwrap_or_default();
+    Some((c, max as u64 > limit, victim))
+}
+
 pub fn run(case: &Case, ctx: &mut Ctx) -> CaseOutcome {
     let mut out = CaseOutcome::default();
+    let is_f8 = case.params.get("fault").map(|s| s == "F8-fsize-limit").unwrap_or(false);
+    let mut f8_expect: Option<(bool, String)> = None;
+    let resolved;
+    let case = if is_f8 {
+        match resolve_fsize(case, ctx) {
+            Some((c, exp, victim)) => {
+                f8_expect = Some((exp, victim));
+                resolved = c;
+                &resolved
+            }
+            None => {
+                ctx.stats.count("skipped.f8_not_applicable");
+                return out;
+            }
+        }
+    } else {
+        case
+    };
     let mut rec = case.clone();
     let h = exec(case, ctx, &mut rec);
     out.poisoned = h.poisoned;
@@ -429,7 +526,19 @@ pub fn run(case: &Case, ctx: &mut Ctx) -> CaseOutcome {
     let req = if last.cfg.mode == ModeS::Clean { named.clone() } else { a.closure(&named) };
     let fi = a.by_path.get(&faulty).copied();
     let planted = case.params.get("planted").map(|s| s == "true").unwrap_or(false);
-    let required_fault = planted && fi.map(|i| req.contains(&i)).unwrap_or(false);
+    let mut required_fault = planted && fi.map(|i| req.contains(&i)).unwrap_or(false);
+    let mut faulty = faulty;
+    if let Some((exp, victim)) = &f8_expect {
+        // the limit is a fault exactly when some product of the closure is longer than it
+        required_fault = *exp;
+        if *exp {
+            faulty = victim.clone();
+            ctx.stats.count("fault.F8_limit_below_a_product");
+        } else {
+            ctx.stats.count("fault.F8_limit_not_reached");
+        }
+    }
+    let fi = a.by_path.get(&faulty).copied().or(fi);
     let pos = fi.map(|i| position_of(&a, i, &req, &named)).unwrap_or("outside");
     let cell = format!("{fault}/{pos}/{}", last.cfg.mode.name());
     ctx.stats.count(&format!("cell.{cell}"));
@@ -489,7 +598,7 @@ pub fn run(case: &Case, ctx: &mut Ctx) -> CaseOutcome {
         Verdict::Hung => {}
     }
     // a sample of cells again through the real binary (OS-scheduled): exit status must agree
-    if case.index % 8 == 0 && out.violation.is_none() {
+    if case.index % 8 == 0 && out.violation.is_none() && !is_f8 {
         tree::restore(&ctx.env.root, &last.before);
         if let Some(code) = run_cli(&ctx.env.root, &last.cfg) {
             ctx.stats.count("c04.cli_runs");
